@@ -212,4 +212,101 @@ def foldReqH (s : Store) (acc : Acc) : List String → Option Acc
     | some acc' => foldReqH s acc' ns
     | none => none
 
+/-! ### Legacy (policies) mode: `runner.DispatchOnRequest` / `DispatchOnResponse`
+
+The remedy plugins are the ENVIRONMENT of the fold: what each of them answers depends only on the
+transaction arguments as the loop of `runOnRequest` / `runOnResponse` has updated them so far
+(`action.Ensure…IsUpdated(&args)` runs before `…Prioritize`), never on the accumulated action.
+`scriptReq` / `scriptResp` give the answers of the remedies the harness configures; the legacy
+fold is then the same `foldReq` / `foldResp` over those answers. -/
+
+inductive Remedy where
+  | fixed (status : Int)                          -- fixed_response{status_code}
+  | acct (tokens : Hdrs)                          -- account_orchestration, one account with these tokens
+  | apikey (tokens : Hdrs)                        -- authentication, api_key account
+  | oauth (secret : String)                       -- authentication, o_auth account {client_secret: secret}
+  | retry (cooldown : Nat) (lo hi : Int)          -- retry{attempts 1, initial_cooldown_seconds, status lo..hi}
+deriving DecidableEq, Repr
+
+def fixedBody : String := "{\"message\": \"GO Lunar\"}"
+def fixedHdrs : Hdrs := [("powered-by", "Lunar Interventions Inc.")]
+def retryAfterName : String := "x-lunar-retry-after"
+
+/-- What the request-side plugins have seen/cached so far in one transaction. -/
+structure ReqEnv where
+  hdrs : Hdrs                       -- args.Headers (one shared map)
+  apikey : Option Hdrs := none      -- APIKeyAuth.headers[endpoint]
+  oauth : Option String := none     -- OAuth.bodies[endpoint]
+
+/-- `X.EnsureRequestIsUpdated(&args)` on the header map of the arguments. -/
+def ensureReq (H : Hdrs) : ReqAct → Hdrs
+  | .modReq h host _ _ _ => merge (if host != "" then merge H [("Host", host)] else H) h
+  | .modHdr h => merge H h
+  | .genReq h rm _ => (merge H h).filter fun kv => !rm.contains kv.1
+  | _ => H
+
+/-- A Go map built by assigning the pairs in order. -/
+def mapOf (l : Hdrs) : Hdrs := l.foldl (fun m kv => merge m [kv]) []
+
+/-- `plugin.OnRequest(args, …)` of one remedy, then `action.EnsureRequestIsUpdated(&args)`.
+    The OAuth answer carries `args.Headers` ITSELF as `HeadersToSet` (same map): its value is the
+    map after its own `EnsureRequestIsUpdated` (which deletes `content-length` from it). -/
+def answerReq (env : ReqEnv) : Remedy → ReqAct × ReqEnv
+  | .fixed s =>
+    (if env.hdrs.lookup "early-response" == some "true" then .early s fixedBody fixedHdrs else .noop, env)
+  | .acct toks =>
+    let hs := mapOf (toks.filter fun kv => env.hdrs.lookup kv.1 != some kv.2)
+    if hs.isEmpty then (.noop, env)
+    else (.modReq hs "" "" "" "", { env with hdrs := ensureReq env.hdrs (.modReq hs "" "" "" "") })
+  | .apikey toks =>
+    let cached := env.apikey.getD (mapOf toks)
+    let env := { env with apikey := some cached }
+    if cached.isEmpty then (.noop, env)
+    else (.modReq cached "" "" "" "", { env with hdrs := ensureReq env.hdrs (.modReq cached "" "" "" "") })
+  | .oauth sec =>
+    let body := env.oauth.getD ("{\"client_secret\":\"" ++ sec ++ "\"}")
+    let H := ensureReq env.hdrs (.genReq env.hdrs ["content-length"] body)
+    (.genReq H ["content-length"] body, { env with hdrs := H, oauth := some body })
+  | .retry .. => (.noop, env)
+
+/-- The answers of the remedies on the request side, in order. -/
+def scriptReq (env : ReqEnv) : List Remedy → List ReqAct
+  | [] => []
+  | r :: rs => let (a, env') := answerReq env r; a :: scriptReq env' rs
+
+/-- `plugin.OnResponse(args, …)` for a response whose status is `status`. -/
+def answerResp (status : Int) : Remedy → RespAct
+  | .retry n lo hi => if lo ≤ status ∧ status ≤ hi then .modResp [(retryAfterName, toString n)] "" 0 else .noop
+  | _ => .noop
+
+/-- The answers on the response side; a `ModifyResponseAction` answer is written into the arguments
+    (`EnsureResponseIsUpdated`: status and body of the action) before the next remedy runs. -/
+def scriptResp (status : Int) : List Remedy → List RespAct
+  | [] => []
+  | r :: rs =>
+    let a := answerResp status r
+    a :: scriptResp (match a with | .modResp _ _ s => s | _ => status) rs
+
+/-- `runOnRequest`. -/
+def legacyFoldReq (H0 : Hdrs) (rs : List Remedy) : ReqAct := foldReq (scriptReq { hdrs := H0 } rs)
+
+/-- `a.EnsureResponseIsUpdated(&args)` on the header map of the arguments. -/
+def ensureRespHdrs (m : Hdrs) : RespAct → Hdrs
+  | .modResp h2 _ _ => merge m h2
+  | _ => m
+
+/-- `obtainModifiedEarlyResponse`: the response-side remedies run on the gateway-made answer; every
+    `ModifyResponseAction` writes its header edits into the early response's OWN header map
+    (`onResponse.Headers` is that map); status and body stay those of the early response. -/
+def rerunEarly (rs : List Remedy) : ReqAct → ReqAct
+  | .early s b h =>
+    .early s b ((scriptResp s rs).foldl ensureRespHdrs h)
+  | a => a
+
+/-- The action `DispatchOnRequest` encodes. -/
+def legacyReq (H0 : Hdrs) (rs : List Remedy) : ReqAct := rerunEarly rs (legacyFoldReq H0 rs)
+
+/-- The action `DispatchOnResponse` encodes for a response with this status. -/
+def legacyResp (status : Int) (rs : List Remedy) : RespAct := foldResp (scriptResp status rs)
+
 end LunarVerif.C07
